@@ -245,7 +245,16 @@ func GenStructPair(t *rapid.T, pf Profile, idx int) (src, dst StructDecl) {
 				continue
 			}
 			at := func(home, kind string) TypeAtom { return TypeAtom{Home: home, Kind: kind} }
-			switch rapid.IntRange(0, 3).Draw(t, "targeted") {
+			switch rapid.IntRange(0, 4).Draw(t, "targeted") {
+			case 4:
+				// a struct behind a getter whose member's member is reached by a pointer-receiver getter only
+				if usedS["line_"] || usedS["Line"] || usedD["Line"] {
+					continue
+				}
+				addS(mk("line_", at("LLine", "struct-local")))
+				usedS["Line"] = true
+				src.Getters = append(src.Getters, Getter{Name: "Line", Field: "line_", Type: "LLine", PtrRecv: rapid.Bool().Draw(t, "linePtrRecv")})
+				addD(mk("Line", at("LLineD", "struct-local")))
 			case 3:
 				// slices of a type the home package imports only through ext
 				addS(mk(name, at("ext.Trail", "struct-imported-with-indirect-slices")))
@@ -697,6 +706,10 @@ func GenNotations(t *rapid.T, m *Method, src, dst StructDecl, uf *UserFuncs, pf 
 		egs := errGetterMembers(from)
 		sms = append(sms, egs...)
 		sms = append(sms, egs...)
+	} else {
+		// (T, error) getters as sources of :map / :conv in every profile (a :conv fed from one ends as "no match",
+		// with its warning)
+		sms = append(sms, errGetterMembers(from)...)
 	}
 	if len(dms) == 0 || len(sms) == 0 {
 		return
@@ -744,6 +757,21 @@ func GenNotations(t *rapid.T, m *Method, src, dst StructDecl, uf *UserFuncs, pf 
 			if rapid.IntRange(0, dollarOneOdds).Draw(t, "dollarOne") == 0 {
 				// "$1" is the source operand itself, at every nesting depth of the destination
 				m.Notes = append(m.Notes, Notation{"map", []string{"$1." + s.Path, d.Path}})
+			} else if k := errExtra(m.Extras); pf.ErrHeavy && k >= 0 && rapid.IntRange(0, 1).Draw(t, "tmplErrGetter") == 0 {
+				// a (T, error) getter of an additional argument: wired in with an error check, or - in a method without
+				// error result - not at all
+				dd := d
+				var ints []member
+				for _, x := range dms {
+					switch x.Home {
+					case "int", "int64", "LInt", "ext.MyInt", "interface{}":
+						ints = append(ints, x)
+					}
+				}
+				if len(ints) > 0 {
+					dd = rapid.SampledFrom(ints).Draw(t, "tmplErrGetterDst") // E() returns an int
+				}
+				m.Notes = append(m.Notes, Notation{"map", []string{fmt.Sprintf("$%d.E()", k+2), dd.Path}})
 			} else if len(m.Extras) > 0 && rapid.IntRange(0, 2).Draw(t, "tmpl") == 0 {
 				ei := rapid.IntRange(0, len(m.Extras)-1).Draw(t, "ei")
 				arg := fmt.Sprintf("$%d", ei+2)
@@ -791,6 +819,16 @@ func GenNotations(t *rapid.T, m *Method, src, dst StructDecl, uf *UserFuncs, pf 
 			}
 		}
 	}
+}
+
+// errExtra returns the index of an additional argument whose type has the (T, error) getter E(), or -1.
+func errExtra(extras []Param) int {
+	for i, e := range extras {
+		if e.Type == "*LInner" || e.Type == "*ext.Inner" || e.Type == "LInner" {
+			return i
+		}
+	}
+	return -1
 }
 
 // GenProg draws a whole program.
@@ -857,6 +895,16 @@ func GenProg(t *rapid.T, pf Profile) *Prog {
 			}
 			if pf.ErrHeavy && rapid.IntRange(0, 4).Draw(t, "errHeavy") != 0 {
 				m.RetErr = true
+			}
+			if pf.ErrHeavy && !m.Reverse && len(m.Extras) == 0 && rapid.IntRange(0, 2).Draw(t, "errHeavyExtra") == 0 {
+				m.Extras = []Param{{Type: rapid.SampledFrom([]string{"*LInner", "*ext.Inner"}).Draw(t, "errHeavyExtraT")}}
+				if m.SrcName != "" {
+					m.Extras[0].Name = "x0"
+				}
+				// its (T, error) getter has nowhere to put the error in half of these methods
+				if rapid.Bool().Draw(t, "errHeavyExtraNoErr") {
+					m.RetErr = false
+				}
 			}
 			if pf.Notations {
 				GenNotations(t, &m, pr.s, pr.d, uf, pf)
@@ -991,6 +1039,24 @@ func GenProg(t *rapid.T, pf Profile) *Prog {
 	p.HomeFuncs = uf.String()
 	p.SetupFuncs += uf.Setup()
 	p.FixImports()
+	// T12: an operand the user names like a package the same file imports (here: "e") hides that package from the
+	// function body, in hand-written code just as in generated code - not a well-formed input
+	for _, im := range p.Imports {
+		if im.Name != "e" {
+			continue
+		}
+		for ii := range p.Ifaces {
+			for mi := range p.Ifaces[ii].Methods {
+				m := &p.Ifaces[ii].Methods[mi]
+				if m.SrcName == "e" {
+					m.SrcName = "in"
+				}
+				if m.DstName == "e" {
+					m.DstName = "out"
+				}
+			}
+		}
+	}
 	return p
 }
 
